@@ -651,6 +651,27 @@ theorem C07_expull_separation (a : Expull.Arena) (e1 : Expull.Eull) (full : List
   · rw [Expull.readToEnd_good _ _ _ _ _ (Expull.good_congr a a' e1 full la ld hm hl g),
       Expull.readToEnd_good _ _ _ _ _ g]
 
+/-- **The whole writer.**  `n` byte logs (one per term) start empty in an empty arena; after *any*
+interleaving of `extend_from_slice` calls on them — the indexing loop appending to whichever term
+the next token belongs to — `read_to_end` of every list returns exactly the bytes written to that
+list, in order.  (Invariant: each list holds its bytes in its own blocks, and no two lists share
+an address; a write grows a list only into freshly allocated space.) -/
+theorem C07_expull_writer (n : Nat) (ws : List (Nat × List Nat)) (hw : ∀ w ∈ ws, w.1 < n)
+    (hfit : (Expull.runWrites (List.replicate n Expull.Eull.default) Expull.Arena.empty ws).2.len ≤ 2 ^ 32)
+    (j : Nat) (hj : j < n) :
+    Expull.readToEnd
+        ((Expull.runWrites (List.replicate n Expull.Eull.default) Expull.Arena.empty ws).1.getD j Expull.Eull.default)
+        (Expull.runWrites (List.replicate n Expull.Eull.default) Expull.Arena.empty ws).2 =
+      (ws.filter (fun w => w.1 = j)).flatMap (·.2) := by
+  have h0 : Expull.Inv Expull.Arena.empty (List.replicate n Expull.Eull.default) (fun _ => none) (fun _ => []) := by
+    refine ⟨fun k hk => ?_, fun k l _ _ _ x hx => by simp [Expull.OwnedV] at hx⟩
+    simp only [List.length_replicate] at hk
+    simp [Expull.RepV, List.getD_eq_getElem?_getD, hk]
+  obtain ⟨hl, vs', hinv⟩ := Expull.runWrites_inv ws _ _ _ _ h0 (by simpa using hw) hfit
+  have := hinv.1 j (by rw [hl]; simpa using hj)
+  have hr := Expull.readToEnd_rep _ _ _ (Expull.repV_rep _ _ _ _ this)
+  simpa using hr
+
 /-! ### field norms -/
 
 theorem fieldnorm_roundtrip (i : Nat) (hi : i < 256) :
@@ -762,6 +783,9 @@ example : (Expull.runWrites [Expull.Eull.default, Expull.Eull.default] Expull.Ar
     (fun e => Expull.readToEnd e (Expull.runWrites [Expull.Eull.default, Expull.Eull.default] Expull.Arena.empty
       [(0, [1, 2, 3]), (1, [9]), (0, [4, 5, 6, 7, 8, 9, 10])]).2) = [[1, 2, 3, 4, 5, 6, 7, 8, 9, 10], [9]] := by
   decide +kernel
+example : (Expull.runWrites (List.replicate 2 Expull.Eull.default) Expull.Arena.empty
+      [(0, [1, 2, 3]), (1, [9]), (0, [4, 5, 6, 7, 8, 9, 10])]).2.len ≤ 2 ^ 32 ∧
+    (∀ w ∈ [(0, [1, 2, 3]), (1, [9]), (0, [4, 5, 6, 7, 8, 9, 10])], w.1 < 2) := by decide +kernel
 example : Recorder.sortPostings ([⟨0, 1, [0]⟩, ⟨1, 2, [0, 2]⟩, ⟨2, 1, [4]⟩].map (Recorder.remapPosting (fun d => 2 - d))) =
     [⟨0, 1, [4]⟩, ⟨1, 2, [0, 2]⟩, ⟨2, 1, [0]⟩] := by decide
 example : BlockPostings.seekAll cfg (BlockPostings.open cfg .basic .basic 3 [129, 132, 132]) [0, 2, 9, 10] =
